@@ -24,7 +24,7 @@ func init() { fw.Register(&c38{Base: Base{Id: "C38", Lvl: "exploration"}}) }
 func (p *c38) Setup(env *fw.Env) error {
 	p.Env = env
 	p.N = env.Pick(30000, 1200000)
-	p.RuleS = "(a) random sequences of 1..6 messages — calls with int64 ids (0, negatives, ±2^53 neighbourhood, MaxInt64) and string ids (incl. \"\"), notifications, responses with result / wire error (with data) / wrapped wire error / plain error / neither — with random JSON params/results (nested objects, arrays, unicode and HTML-sensitive strings, big numbers), written with HeaderFramer().Writer and read back through a reader that delivers 1..n bytes per Read; (b) hostile streams: one frame of a valid stream is damaged (header case/spacing, extra/duplicate headers, missing/zero/negative/huge/non-numeric/overflowing Content-Length, truncated body, garbage JSON of the declared length, wrong version, id of wrong type, shorter/longer declared length) and followed by a well-formed frame. Oracle: same messages in order with per-message byte totals; no panic; when the damaged frame's header is well-formed the next Read returns the following frame intact. Non-trivial = >=2 messages or a hostile frame; distinct by stream bytes."
+	p.RuleS = "(a) random sequences of 1..6 messages — calls with int64 ids (0, negatives, ±2^53 neighbourhood, MaxInt64) and string ids (incl. \"\"), notifications, responses with result / wire error (with data) / wrapped wire error / plain error / neither — with random JSON params/results (nested objects, arrays, unicode and HTML-sensitive strings, big numbers), written with HeaderFramer().Writer and read back through a reader that delivers 1..n bytes per Read; (b) hostile streams: one frame of a valid stream is damaged (header case/spacing, extra/duplicate headers, missing/zero/negative/huge/non-numeric/overflowing Content-Length, truncated body, garbage JSON of the declared length, a valid object followed by trailing bytes inside the declared length, Content-Length overstated by the size of the next frame, wrong version, id of wrong type, shorter/longer declared length) and followed by a well-formed frame. Oracle: same messages in order with per-message byte totals; no panic; when the damaged frame's header is well-formed the next Read returns the following frame intact. Non-trivial = >=2 messages or a hostile frame; distinct by stream bytes."
 	p.Assume = []string{"params/results are compared as JSON values (json.Marshal legitimately compacts and HTML-escapes raw messages)", "methods are non-empty valid UTF-8; top-level params/results are never the JSON literal null"}
 	p.Floor = map[string]int{"#evaluations": p.N / 2, "#nontrivial": 5000, "msg:call-int": 2000, "msg:call-string": 1000, "msg:notification": 1000, "msg:response-result": 1000, "msg:response-wire-error": 500, "msg:response-wrapped-error": 300, "msg:response-plain-error": 300, "msg:response-empty": 200,
 		"hostile:error-returned": 2000, "hostile:next-frame-intact": 1000, "hostile:message-returned": 100, "chunked-reader": 5000}
@@ -357,7 +357,7 @@ func (p *c38) Run(c fw.Case, r *fw.Rec) {
 	headerOK := true   // header well-formed with a Content-Length equal to the bytes that follow as "body"
 	mayReturnMsg := false
 	mk := func(hdr string, b []byte) []byte { return append([]byte(hdr), b...) }
-	kind := rnd.Intn(16)
+	kind := rnd.Intn(19)
 	switch kind {
 	case 0:
 		bad = mk(fmt.Sprintf("content-length: %d\r\n\r\n", len(body)), body) // header names are case-sensitive here: missing Content-Length
@@ -406,14 +406,32 @@ func (p *c38) Run(c fw.Case, r *fw.Rec) {
 		// declared length shorter than the body: the rest of the body is read as the next header
 		bad = mk(fmt.Sprintf("Content-Length: %d\r\n\r\n", len(body)-1), body)
 		headerOK = false
+	case 16:
+		// a valid object followed by trailing bytes inside the declared length: malformed, must be rejected
+		b2 := append(append([]byte(nil), body...), fw.Pick(rnd, []string{" x", "{}", "]", ",", " 1", "\n{\"jsonrpc\":\"2.0\",\"method\":\"m\"}", "}"})...)
+		bad = mk(fmt.Sprintf("Content-Length: %d\r\n\r\n", len(b2)), b2)
+	case 17:
+		// Content-Length overstated by exactly the size of the following frame: the next frame becomes trailing data
+		rest := data[end:]
+		nextLen := len(rest)
+		if k+2 < n {
+			nextLen = frameStart[k+2] - end
+		}
+		if nextLen == 0 {
+			bad = mk(fmt.Sprintf("Content-Length: %d\r\n\r\n", len(body)+2), append(append([]byte(nil), body...), '{', '}'))
+		} else {
+			bad = mk(fmt.Sprintf("Content-Length: %d\r\n\r\n", len(body)+nextLen), body)
+			headerOK = false // the following frame is consumed as body: positions after it are not comparable
+		}
 	default:
 		bad = mk(fmt.Sprintf("Content-Length: %d\r\n\r\n", len(body)), body)[:rnd.Intn(hdrEnd+1)] // truncated inside the header
 		headerOK = false
+		kind = 15
 	}
 	var hs bytes.Buffer
 	hs.Write(data[:frameStart[k]])
 	hs.Write(bad)
-	if kind != 5 && kind < 15 { // a truncation is the end of the stream
+	if kind != 5 && kind != 15 { // a truncation is the end of the stream
 		hs.Write(data[end:])
 		// a sentinel frame at the very end
 		sentinel, _ := jsonrpc2.NewNotification("sentinel", map[string]any{"n": c.Idx})
